@@ -160,6 +160,18 @@ def check_case(case: dict) -> Result:
                 res.fail(f"singleton-nonzero :: {w_}: player {i} -> {got[1 << i]!r}")
     if not res.failures and not is_sa(got, n, sa_tol):
         res.fail(f"normalised-not-superadditive :: {w_}")
+    # a graph game owns its weights: normalising one game must not change another game built from the same array, nor the array
+    if spec["kind"] == "graph":
+        from incomplete_cooperative.graph_game import GraphCooperativeGame
+        arr = np.array(spec["matrix"], dtype=float)
+        keep = arr.copy()
+        first, second = GraphCooperativeGame(arr), GraphCooperativeGame(arr)
+        normalize_game(first)
+        if not np.array_equal(arr, keep):
+            res.fail(f"graph-game-aliases-caller-array :: {w_}: normalising a graph game changed the weight matrix it was constructed from")
+        sv = [float(x) for x in second.get_values()]
+        if any(abs(a - b) > 1e-12 * max(scale, 1.0) for a, b in zip(sv, original)):
+            res.fail(f"graph-games-share-weights :: {w_}: normalising one graph game changed another one built from the same matrix")
     # graph vs tabulated form
     if spec["kind"] == "graph":
         tab = repo.full_game(n, original)
